@@ -6,24 +6,53 @@ from vlib.core import HypClause, Violation
 from vlib import util as U
 
 RULE = ("Hypothesis draws, per polynomial family, an ascending order list (contiguous from 0 / 1 / 2 / k, gapped random "
-        "subset, singleton, long - up to order 40 quick / 90 thorough), the shape parameters, and a coordinate shape "
-        "(0-D, 1-D, 2-D square / non-square, 3-D, with a forced class whose leading dimension equals the number of "
-        "orders, and one whose trailing dimension does); for the two-index families an arbitrary list of valid (n,m) "
-        "pairs in any order with repeated |m| and repeated pairs.  Coordinates are expanded from a drawn integer "
-        "inside the family's domain (end points included), float64 and (one case in eight) float32.  Oracle "
+        "subset, singleton, long; orders up to 120 quick / 200 thorough - 100 / 150 for Hermite - i.e. far beyond the int64 "
+        "range of closed-form constants), given as list / tuple / range / int64 or int32 ndarray; the shape parameters "
+        "(incl. Jacobi pairs on and within 1e-16..1e-6 of the lines alpha+beta = 0, -1); a coordinate shape (0-D array or "
+        "numpy scalar, 1-D, 2-D square / non-square, 3-D, a forced class whose leading dimension equals the number of "
+        "orders and one whose trailing dimension does, one large 257x263 class); the coordinate dtype (float64, float32, "
+        "complex128, complex64 for every family (single precision only up to order 30, Q2d n<=14 |m|<=10, xy exponents <= 12); "
+        "int64 / int32 for the integer-coefficient families "
+        "Hermite, Dickson with integer alpha, xy, at orders that cannot overflow); the memory layout (C, Fortran, "
+        "transposed view, strided view); positional or keyword coordinate argument; and a history: nothing, or an "
+        "earlier call of the same routine at single precision / with another order list of the same first, last and "
+        "length / other coordinates / other shape parameters.  For the two-index families an arbitrary list of valid (n,m) "
+        "pairs in any order with repeated |m| and repeated pairs, given as list of tuples / lists, tuple of tuples or "
+        "(k,2) ndarray.  Coordinates are expanded from a drawn integer inside the family's domain (end points included; "
+        "complex: imaginary part in [-0.3,0.3], zero for some entries).  Oracle "
         "(differential, as the property states): seq(ns, x)[k] against scalar(ns[k], x) for every k - per mode, "
-        "|diff| <= 1e-11 max(max|mode at x|, max|mode| on a fixed grid of the domain) in float64 (same recurrence; observed 0 "
-        "for all one-index families, <= 5e-16 for zernike / xy), 1e-3 in float32 (observed <= 3e-6) - and the leading "
-        "shape (len(ns), *x.shape); xy_seq additionally against x**m * y**n on the same grid.  Non-trivial = gapped "
-        "list, or list not starting at 0/1, or x.ndim != 1, or a dimension of x equal to len(ns) (two-index: list "
-        "not sorted or |m| repeated, or ndim != 1, or such a dimension).  Distinct = distinct canonical JSON.")
+        "|diff| <= 1e-11 max(max|mode at x|, max|mode| on a fixed grid of the domain - used when fewer than 8 points are given) "
+        "in double precision (same recurrence; observed 0 "
+        "for all one-index families, <= 2.5e-15 for zernike / xy / complex coordinates up to order 200), 1e-3 in single "
+        "(observed <= 3.4e-6) - and the leading "
+        "shape (len(ns), *x.shape); xy_seq additionally against x**m * y**n on the same grid.  Around the checked call: "
+        "every argument (order list, coordinates) is compared with a copy taken before the call; the result is kept, the "
+        "routine is called with other coordinates (that result is spot-checked too) and the kept result must not have "
+        "changed; then the kept result is overwritten in place and the routine called again with the original arguments - "
+        "it must return the same modes.  Non-trivial = gapped "
+        "list, or list not starting at 0/1, or x.ndim != 1, or a dimension of x equal to len(ns), or dtype not float64, or "
+        "non-C layout, or a history (two-index: list "
+        "not sorted or |m| repeated, or ndim != 1, or such a dimension, or dtype / layout / history as above).  Distinct = distinct canonical JSON.")
 ASSUMPTIONS = ["order lists are non-empty, strictly ascending (one-index families) as documented; coordinates are numpy "
-               "arrays (0-D included) of floating dtype", "xy / xy_seq with cartesian_grid=True are only given 2-D "
+               "arrays or numpy scalars (0-D included) of floating or complex dtype; integer dtype only where the "
+               "polynomial has integer coefficients (elsewhere the unchanged sequence routines allocate the output in the "
+               "coordinate dtype and truncate - reported, not asserted); Python floats are not arrays and are not given",
+               "xy / xy_seq with cartesian_grid=True are only given 2-D "
                "meshgrids (the two functions document different conventions for 1-D input)",
                "the scalar-order function is the reference (its own correctness is C07 / C09)"]
 
-NMAX = {'quick': 40, 'thorough': 90}
+NMAX = {'quick': 120, 'thorough': 200}
+NMAX_HERMITE = {'quick': 100, 'thorough': 150}      # H_n(3 sqrt 2) stays well inside the double range
+LONG = {'quick': 70, 'thorough': 130}               # longest contiguous-from-0 list (cost grows with the square)
 DMAX = {'quick': 7, 'thorough': 12}
+# integer coordinates: highest order at which neither the values nor the intermediate products of the recurrence
+# leave the integer range for |x| <= 3 (Hermite) / |x| <= 2, |alpha| <= 2 (Dickson); measured, with a factor 16 spare
+INT_CAP = {'hermite': {'int32': 9, 'int64': 20}, 'dickson': {'int32': 15, 'int64': 35}}
+FLOATS = ['float64'] * 6 + ['float32', 'complex128', 'complex128', 'complex64']
+SINGLE = ('float32', 'complex64')
+# single precision: the sequence routine works in the coordinate dtype, some single-order routines promote to double, and the
+# rounding error of a recurrence in single precision grows with the order (faster off the real axis): orders stay low there
+NMAX_SINGLE = 30
 
 
 # ---- families --------------------------------------------------------------------------------------
@@ -70,34 +99,57 @@ GROUPS = {
 # shape parameters: Jacobi alpha,beta > -1 incl. the Chebyshev half-integer pairs, a+b in {0,-1} (special-cased in the
 # recurrence); Laguerre alpha > -1; Dickson alpha small real
 _AB = [-0.5, 0.5, 0, 1, 2, 4, 1.5, -0.75, 0.25, 3, 5.5]
+_NEXT_TO = [0.0, 5.5e-17, -1.1e-16, 2.2e-16, 1e-15, 1e-12, -1e-9, 1e-6]
 PARAMS = {
     'jacobi': st.one_of(st.tuples(st.sampled_from(_AB), st.sampled_from(_AB)).map(list),
-                        st.tuples(U.nice_float(-0.95, 6.0), U.nice_float(-0.95, 6.0)).map(list)),
-    'laguerre': st.one_of(st.sampled_from([0, 1, 2, 0.5, -0.5, 3.25]), U.nice_float(-0.95, 6.0)).map(lambda a: [a]),
-    'dickson': st.one_of(st.sampled_from([0, 1, -1, 2, 0.5]), U.nice_float(-2.0, 2.0)).map(lambda a: [a]),
+                        st.tuples(U.nice_float(-0.95, 6.0), U.nice_float(-0.95, 6.0)).map(list),
+                        # on and next to the special lines alpha+beta = 0 and alpha+beta = -1 of the recurrence
+                        st.tuples(U.nice_float(-0.95, 0.95), st.sampled_from(_NEXT_TO)).map(lambda t: [t[0], -t[0] + t[1]]),
+                        st.tuples(U.nice_float(-0.95, -0.05), st.sampled_from(_NEXT_TO)).map(lambda t: [t[0], -1.0 - t[0] + t[1]])),
+    'laguerre': st.one_of(st.sampled_from([0, 1, 2, 0.5, -0.5, 3.25, -1 + 1e-9, 1e-16, -1e-16]), U.nice_float(-0.95, 6.0)).map(lambda a: [a]),
+    'dickson': st.one_of(st.sampled_from([0, 1, -1, 2, 0.5, 1e-16, -1e-16, 1 + 2.2e-16]), U.nice_float(-2.0, 2.0)).map(lambda a: [a]),
+    'dickson-int': st.sampled_from([0, 1, -1, 2, -2]).map(lambda a: [a]),
 }
 
 
-def _param_strategy(fam):
+def _param_strategy(fam, dtype='float64'):
     if fam.startswith('jacobi'):
         return PARAMS['jacobi']
     if fam.startswith('laguerre'):
         return PARAMS['laguerre']
     if fam.startswith('dickson'):
-        return PARAMS['dickson']
+        return PARAMS['dickson-int' if dtype.startswith('int') else 'dickson']
     return st.just([])
 
 
+def _dtype_strategy(fam):
+    """coordinate dtypes the unchanged routines accept for this family (integer: integer-coefficient polynomials only)"""
+    if fam.startswith('hermite') or fam.startswith('dickson'):
+        return st.sampled_from(FLOATS + ['int64', 'int32'])
+    return st.sampled_from(FLOATS)
+
+
+def _nmax(fam, dtype, tier):
+    key = 'hermite' if fam.startswith('hermite') else ('dickson' if fam.startswith('dickson') else None)
+    if dtype.startswith('int'):
+        return INT_CAP[key][dtype]
+    if dtype in SINGLE:
+        return NMAX_SINGLE
+    return NMAX_HERMITE[tier] if key == 'hermite' else NMAX[tier]
+
+
 # ---- order lists and shapes --------------------------------------------------------------------------
-def order_lists(N):
-    """ascending, strictly increasing, non-empty lists of orders in 0..N; each class forced."""
-    contiguous = st.tuples(st.one_of(st.sampled_from([0, 0, 1, 1, 2, 3]), st.integers(0, N - 1)), st.integers(1, 14)).map(
+def order_lists(N, L=None):
+    """ascending, strictly increasing, non-empty lists of orders in 0..N; each class forced.  L caps the contiguous-from-0 class."""
+    L = min(N, L or N)
+    contiguous = st.tuples(st.one_of(st.sampled_from([0, 0, 1, 1, 2, 3]), st.integers(0, max(0, N - 1))), st.integers(1, 14)).map(
         lambda t: [n for n in range(t[0], t[0] + t[1]) if n <= N])
     gapped = st.sets(st.integers(0, N), min_size=2, max_size=10).map(sorted)
-    low_gapped = st.sets(st.integers(0, 8), min_size=1, max_size=6).map(sorted)
+    low_gapped = st.sets(st.integers(0, min(8, N)), min_size=1, max_size=6).map(sorted)
     single = st.one_of(st.sampled_from([0, 1, 2, 3]), st.integers(0, N)).map(lambda n: [n])
-    long_ = st.integers(max(2, N - 12), N).map(lambda n: list(range(0, n + 1)))
-    return st.one_of(contiguous, gapped, low_gapped, single, long_)
+    long_ = st.integers(max(2, L - 12), L).map(lambda n: list(range(0, n + 1)))
+    high = st.sets(st.integers(max(0, N - 30), N), min_size=1, max_size=5).map(sorted)     # the far end of the range
+    return st.one_of(contiguous, gapped, low_gapped, single, long_, high)
 
 
 def shape_spec(D):
@@ -117,6 +169,9 @@ def shape_spec(D):
     )
 
 
+BIG = ['plain', [257, 263]]     # > 2**16 samples, prime sides; only drawn together with short low-order lists
+
+
 def resolve_shape(spec, k):
     kind, dims = spec
     dims = [int(v) for v in dims]
@@ -128,18 +183,42 @@ def resolve_shape(spec, k):
 
 
 def coords(seed, shape, lo, hi, dtype, salt=0):
-    """points inside [lo,hi] from the drawn integer; ~1 in 8 entries is pinned to an end point or the middle."""
+    """points inside [lo,hi] from the drawn integer; ~1 in 8 entries is pinned to an end point or the middle.
+
+    complex dtypes: the same real parts plus an imaginary part in [-0.3, 0.3] (exactly zero for ~1 entry in 4);
+    integer dtypes: the integers of [lo, hi]."""
     r = U.rng_of(seed, salt)
     x = r.uniform(lo, hi, shape)
     pin = r.integers(0, 24, shape)
     x = np.where(pin == 0, lo, x)
     x = np.where(pin == 1, hi, x)
     x = np.where(pin == 2, 0.5 * (lo + hi), x)
+    if dtype.startswith('complex'):
+        r2 = U.rng_of(seed, salt + 1000)
+        im = r2.uniform(-0.3, 0.3, shape)
+        im = np.where(r2.integers(0, 4, shape) == 0, 0.0, im)
+        x = x + 1j * im
+    elif dtype.startswith('int'):
+        x = U.rng_of(seed, salt + 2000).integers(int(np.ceil(lo)), int(np.floor(hi)) + 1, shape)
     return np.asarray(x, dtype=dtype)
 
 
+def present(x, layout, x0d):
+    """the same values as the routine will see them: another memory layout, or (0-D) a numpy scalar instead of an array"""
+    if x.ndim == 0:
+        if x0d == 'pyfloat' and x.dtype == np.float64:
+            return float(x)
+        return x[()] if x0d == 'npscalar' else x
+    return U.relayout(x, layout)
+
+
+def _single(dtype):
+    """the single-precision partner of a coordinate dtype (None for integer dtypes)"""
+    return {'float64': 'float32', 'float32': 'float32', 'complex128': 'complex64', 'complex64': 'complex64'}.get(dtype)
+
+
 def _tol(dtype):
-    return 1e-11 if dtype == 'float64' else 1e-3
+    return 1e-11 if dtype in ('float64', 'complex128', 'int64', 'int32') else 1e-3
 
 
 def _cmp(got, want, ref, dtype, bucket, what):
@@ -169,6 +248,10 @@ def _list_class(ns):
     return ('contig' if contiguous else 'gapped') + ':from%s' % (ns[0] if ns[0] < 3 else '3+')
 
 
+def _order_class(n):
+    return 'n=%d' % n if n < 3 else ('n>=3' if n < 50 else 'n>=50')
+
+
 def _guard(ctx, cls, fn, *a, **k):
     """ctx.call with the input class appended to the bucket of a crash."""
     try:
@@ -177,38 +260,133 @@ def _guard(ctx, cls, fn, *a, **k):
         raise Violation(v.bucket + ':' + cls, v.msg) from v
 
 
+def _as_orders(ns, how):
+    """the order list in the container the case asks for (list | tuple | range | ndarray | ndarray-int32)"""
+    if how == 'tuple':
+        return tuple(ns)
+    if how == 'range' and ns == list(range(ns[0], ns[0] + len(ns))):
+        return range(ns[0], ns[0] + len(ns))
+    if how == 'ndarray':
+        return np.asarray(ns, dtype=np.int64)
+    if how == 'ndarray-int32':
+        return np.asarray(ns, dtype=np.int32)
+    return list(ns)
+
+
+def _other_orders(ns):
+    """another ascending list with the same first element, last element and length (a different interior where one exists)"""
+    if len(ns) < 3:
+        return [n + 1 for n in ns]
+    lo, hi, k = ns[0], ns[-1], len(ns)
+    up = [lo] + list(range(hi - (k - 2), hi)) + [hi]       # interior pushed against the last element
+    dn = list(range(lo, lo + k - 1)) + [hi]                # interior pushed against the first element
+    return up if up != ns else dn
+
+
+def _unchanged(ctx, now, before, bucket, what):
+    """an argument handed to the routine still holds what it held before the call"""
+    now, before = np.asarray(now), np.asarray(before)
+    ctx.require(now.shape == before.shape and now.dtype == before.dtype and bool(np.all(now == before)), bucket,
+                '%s was modified by the call' % what)
+
+
+# families whose sequence routines document 'Scalars and arrays both work' (Hermite).  On the unchanged tree they read
+# x.shape / x.dtype and raise AttributeError for a Python float, which the single-order functions accept; the repair is
+# fixes/C08/04-hermite-seq-python-scalar.patch.  Put the four Hermite families here once it is in the repository.
+PYFLOAT_FAMILIES = ()
+HISTORY = ['none', 'none', 'none', 'single-first', 'other-ns', 'other-x', 'other-params']
+ORDERS_AS = ['list', 'list', 'list', 'tuple', 'range', 'ndarray', 'ndarray-int32']
+
+
 # ---- one-index families --------------------------------------------------------------------------------
 def strat_one_index(group):
     def build(tier):
-        N, D = NMAX[tier], DMAX[tier]
-        return st.sampled_from(GROUPS[group]).flatmap(lambda fam: st.fixed_dictionaries({
-            'family': st.just(fam), 'ns': order_lists(N), 'params': _param_strategy(fam), 'shape': shape_spec(D),
-            'dtype': st.sampled_from(['float64'] * 7 + ['float32']), 'seed': U.seeds}))
+        D = DMAX[tier]
+
+        def rest(fd):
+            fam, dtype = fd
+            N = _nmax(fam, dtype, tier)
+            shapes = st.one_of(shape_spec(D), shape_spec(D), shape_spec(D), shape_spec(D), st.just(BIG))
+            return shapes.flatmap(lambda sh: st.fixed_dictionaries({
+                'family': st.just(fam), 'ns': order_lists(min(N, 8), 8) if sh == BIG else order_lists(N, LONG[tier]),
+                'params': _param_strategy(fam, dtype), 'shape': st.just(sh), 'dtype': st.just(dtype),
+                'layout': U.layouts, 'x0d': st.sampled_from(['array', 'npscalar'] + (['pyfloat'] if fam in PYFLOAT_FAMILIES else [])),
+                'ns_as': st.sampled_from(ORDERS_AS),
+                'xkw': st.booleans(), 'history': st.sampled_from(HISTORY), 'seed': U.seeds}))
+        return st.sampled_from(GROUPS[group]).flatmap(lambda fam: st.tuples(st.just(fam), _dtype_strategy(fam))).flatmap(rest)
     return build
 
 
 def check_one_index(case, ctx):
-    """seq(ns, *params, x)[k] == scalar(ns[k], *params, x) for every k; shape (len(ns), *x.shape)."""
+    """seq(ns, *params, x)[k] == scalar(ns[k], *params, x) for every k; shape (len(ns), *x.shape); arguments unchanged;
+    results independent of earlier calls and of what the caller did to earlier results."""
     fam, ns, params, dtype = case['family'], [int(n) for n in case['ns']], list(case['params']), case['dtype']
     seq, scalar, npar, lo, hi = _families()[fam]
     k = len(ns)
     shape = resolve_shape(case['shape'], k)
-    x = coords(case['seed'], shape, lo, hi, dtype)
+    layout, x0d, ns_as = case.get('layout', 'C'), case.get('x0d', 'array'), case.get('ns_as', 'list')
+    history, xkw = case.get('history', 'none'), bool(case.get('xkw', False))
+    x = present(coords(case['seed'], shape, lo, hi, dtype), layout, x0d)
     scls, lcls = _shape_class(shape, k), _list_class(ns)
     gapped = ns != list(range(ns[0], ns[0] + k))
-    ctx.nt(gapped or ns[0] > 1 or len(shape) != 1 or k in shape)
-    ctx.label(fam, scls, lcls, dtype, 'maxn>=20' if ns[-1] >= 20 else 'maxn<20')
-    out = _guard(ctx, scls + ':' + lcls, seq, list(ns), *params, x)
-    out = np.asarray(out)
+    ctx.nt(gapped or ns[0] > 1 or len(shape) != 1 or k in shape or dtype != 'float64' or history != 'none'
+           or (layout != 'C' and len(shape) > 0))
+    ctx.label(fam, scls, lcls, dtype, 'maxn>=50' if ns[-1] >= 50 else ('maxn>=20' if ns[-1] >= 20 else 'maxn<20'),
+              'layout:' + (layout if shape else x0d), 'ns_as:' + ns_as, 'history:' + history, 'x-keyword' if xkw else 'x-positional',
+              'big' if int(np.prod(shape)) > 2 ** 16 else 'small')
+
+    def run(orders, pars, xx):
+        if xkw:
+            return _guard(ctx, scls + ':' + lcls, seq, orders, *pars, x=xx)
+        return _guard(ctx, scls + ':' + lcls, seq, orders, *pars, xx)
+
+    # history inside the process: an earlier call that differs in exactly one respect
+    if history == 'single-first' and _single(dtype):
+        run(_as_orders(ns, ns_as), params, present(coords(case['seed'], shape, lo, hi, _single(dtype)), layout, x0d))
+    elif history == 'other-ns':
+        run(_as_orders(_other_orders(ns), ns_as), params, x)
+    elif history == 'other-x':
+        run(_as_orders(ns, ns_as), params, present(coords(case['seed'], shape, lo, hi, dtype, salt=5), layout, x0d))
+    elif history == 'other-params' and params:
+        run(_as_orders(ns, ns_as), [p + 1 for p in params], x)
+
+    x_before = np.array(x, copy=True)
+    ns_arg = _as_orders(ns, ns_as)
+    out = run(ns_arg, params, x)
+    _unchanged(ctx, x, x_before, '%s_seq:argument-modified:x' % fam, 'the coordinate array')
+    ctx.require([int(n) for n in ns_arg] == ns, '%s_seq:argument-modified:ns' % fam, 'the order list %r became %r' % (ns, list(ns_arg)))
+    ctx.require(isinstance(out, np.ndarray), '%s_seq:type' % fam, 'returned %s, not an ndarray' % type(out).__name__)
     U.check_shape(out, (k,) + shape, '%s_seq:%s:%s' % (fam, scls, lcls), '%s_seq(%r) on x of shape %s' % (fam, ns, shape))
+    kept = np.array(out, copy=True)
+
+    # a later call with other coordinates must not reach into the result already handed out ...
+    x2 = present(coords(case['seed'], shape, lo, hi, dtype, salt=7), layout, x0d)
+    out2 = np.asarray(run(ns_arg, params, x2))
+    U.check_equal(out, kept, '%s_seq:result-overwritten' % fam, 'the result of %s_seq(%r) after a second call at other coordinates' % (fam, ns))
+    # ... and the caller may do what it likes with its result
+    if out.flags.writeable:
+        out[...] = 7
+    out3 = np.asarray(run(ns_arg, params, x))
+    U.check_shape(out3, (k,) + shape, '%s_seq:aliased-state:%s' % (fam, scls), 'repeated %s_seq(%r) on x of shape %s' % (fam, ns, shape))
+    U.check_shape(out2, (k,) + shape, '%s_seq:%s:%s' % (fam, scls, lcls), '%s_seq(%r) on other x of shape %s' % (fam, ns, shape))
+
     xref = np.linspace(lo, hi, 17)
+    spot = int(case['seed']) % k
     for i, n in enumerate(ns):
         want = _guard(ctx, scls, scalar, n, *params, x)
         want = np.asarray(want)
         U.check_shape(want, shape, '%s:scalar:%s' % (fam, scls), '%s(%d) on x of shape %s' % (fam, n, shape))
-        ncls = 'n=%d' % n if n < 3 else 'n>=3'
-        _cmp(out[i], want, _guard(ctx, 'ref', scalar, n, *params, xref), dtype, '%s_seq:%s:%s' % (fam, scls, ncls),
-             '%s_seq(%r, %r)[%d] vs %s(%d) on x.shape=%s' % (fam, ns, params, i, fam, n, shape))
+        ncls = _order_class(n)
+        # with only a few points all of them may sit next to a zero of the mode: then the size of the mode on the domain sets the scale
+        ref = _guard(ctx, 'ref', scalar, n, *params, xref) if want.size < 8 else want
+        _cmp(kept[i], want, ref, dtype, '%s_seq:%s:%s' % (fam, scls, ncls),
+             '%s_seq(%r, %r)[%d] vs %s(%d) on x.shape=%s %s %s' % (fam, ns, params, i, fam, n, shape, dtype, layout))
+        _cmp(out3[i], want, ref, dtype, '%s_seq:aliased-state:%s' % (fam, ncls),
+             '%s_seq(%r, %r)[%d] vs %s(%d), called again after the caller overwrote the first result in place' % (fam, ns, params, i, fam, n))
+        if i == spot:
+            _cmp(out2[i], np.asarray(_guard(ctx, scls, scalar, n, *params, x2)), ref, dtype, '%s_seq:second-call:%s' % (fam, ncls),
+                 '%s_seq(%r, %r)[%d] vs %s(%d) on the second coordinate set' % (fam, ns, params, i, fam, n))
+    _unchanged(ctx, x, x_before, '%s:argument-modified:x' % fam, 'the coordinate array (scalar-order function)')
 
 
 # ---- two-index families --------------------------------------------------------------------------------
@@ -251,101 +429,205 @@ def _polar_ref():
     return r, t
 
 
+PAIRS_AS = ['tuples', 'tuples', 'lists', 'tuple-of-tuples', 'ndarray']
+HISTORY2 = ['none', 'none', 'none', 'single-first', 'other-pairs', 'other-coords']
+
+
+def _as_pairs(nms, how):
+    if how == 'lists':
+        return [list(p) for p in nms]
+    if how == 'tuple-of-tuples':
+        return tuple(tuple(p) for p in nms)
+    if how == 'ndarray':
+        return np.asarray(nms, dtype=np.int64).reshape(len(nms), 2)
+    return [tuple(p) for p in nms]
+
+
+def _pairs_equal(arg, nms):
+    got = [(int(p[0]), int(p[1])) for p in arg]
+    return got == [tuple(p) for p in nms]
+
+
+def _two_index_protocol(ctx, name, cls, run, nms, pairs_as, history, make_coords, dtype, other_pairs):
+    """history, the checked call with argument copies, a second call at other coordinates, an in-place edit of the first
+    result and a repeat of the first call.  run(pairs, coords) -> ndarray.  Returns (first result (a copy), coordinates,
+    result of the repeat, second coordinate set, its result)."""
+    c0 = make_coords(dtype, 0)
+    if history == 'single-first' and _single(dtype):
+        run(_as_pairs(nms, pairs_as), make_coords(_single(dtype), 0))
+    elif history == 'other-pairs':
+        run(_as_pairs(other_pairs, pairs_as), c0)
+    elif history == 'other-coords':
+        run(_as_pairs(nms, pairs_as), make_coords(dtype, 40))
+    before = [np.array(c, copy=True) for c in c0]
+    arg = _as_pairs(nms, pairs_as)
+    out = run(arg, c0)
+    for c, b, nm in zip(c0, before, ('first', 'second')):
+        _unchanged(ctx, c, b, '%s:argument-modified:coords' % name, 'the %s coordinate array' % nm)
+    ctx.require(_pairs_equal(arg, nms), '%s:argument-modified:pairs' % name, 'the list of pairs %r became %r' % (nms, arg))
+    ctx.require(isinstance(out, np.ndarray), '%s:type' % name, 'returned %s, not an ndarray' % type(out).__name__)
+    kept = np.array(out, copy=True)
+    c2 = make_coords(dtype, 70)
+    out2 = np.asarray(run(arg, c2))
+    U.check_equal(out, kept, '%s:result-overwritten' % name, 'the result of %s(%r) after a second call at other coordinates' % (name, nms))
+    if out.flags.writeable:
+        out[...] = 7
+    out3 = np.asarray(run(arg, c0))
+    ctx.require(out3.shape == kept.shape, '%s:aliased-state:%s:shape' % (name, cls), 'repeat call returned shape %s, first call %s' % (out3.shape, kept.shape))
+    ctx.require(out2.shape == kept.shape, '%s:second-call:%s:shape' % (name, cls), 'second call returned shape %s, first call %s' % (out2.shape, kept.shape))
+    for c, b, nm in zip(c0, before, ('first', 'second')):
+        _unchanged(ctx, c, b, '%s:argument-modified:coords' % name, 'the %s coordinate array' % nm)
+    return kept, c0, out3, c2, out2
+
+
+def _two_index_labels(ctx, dtype, layout, pairs_as, history, shape):
+    ctx.nt(dtype != 'float64' or history != 'none' or (layout != 'C' and len(shape) > 0))
+    ctx.label(dtype, 'layout:' + (layout if shape else '0-D'), 'pairs_as:' + pairs_as, 'history:' + history)
+
+
 def strat_zernike(tier):
-    N, D = {'quick': 30, 'thorough': 60}[tier], DMAX[tier]
-    return st.fixed_dictionaries({
-        'fn': st.sampled_from(['zernike_nm_seq', 'zernike_nm_der_seq']), 'nms': zernike_pairs(N), 'norm': st.booleans(),
-        'norm_kw': st.booleans(), 'shape': shape_spec(D), 'dtype': st.sampled_from(['float64'] * 7 + ['float32']),
-        'seed': U.seeds})
+    N, D = {'quick': 60, 'thorough': 120}[tier], DMAX[tier]
+    return st.sampled_from(FLOATS).flatmap(lambda dtype: st.fixed_dictionaries({
+        'fn': st.sampled_from(['zernike_nm_seq', 'zernike_nm_der_seq']), 'nms': zernike_pairs(NMAX_SINGLE if dtype in SINGLE else N), 'norm': st.booleans(),
+        'norm_kw': st.booleans(), 'shape': shape_spec(D), 'dtype': st.just(dtype), 'layout': U.layouts,
+        'pairs_as': st.sampled_from(PAIRS_AS), 'history': st.sampled_from(HISTORY2), 'seed': U.seeds}))
 
 
 def check_zernike(case, ctx):
-    """zernike_nm_seq / zernike_nm_der_seq against zernike_nm / zernike_nm_der, pair by pair, norm True and False."""
+    """zernike_nm_seq / zernike_nm_der_seq against zernike_nm / zernike_nm_der, pair by pair, norm True and False; arguments
+    unchanged; results independent of earlier calls and of what the caller did to earlier results."""
     from prysm import polynomials as P
     nms = [(int(n), int(m)) for n, m in case['nms']]
     k = len(nms)
     shape = resolve_shape(case['shape'], k)
     dtype = case['dtype']
-    r = coords(case['seed'], shape, 0.0, 1.0, dtype, salt=1)
-    t = coords(case['seed'], shape, 0.0, 2 * np.pi, dtype, salt=2)
+    layout, pairs_as, history = case.get('layout', 'C'), case.get('pairs_as', 'tuples'), case.get('history', 'none')
+
+    def make_coords(dt, salt):
+        return (present(coords(case['seed'], shape, 0.0, 1.0, dt, salt=1 + salt), layout, 'array'),
+                present(coords(case['seed'], shape, 0.0, 2 * np.pi, dt, salt=2 + salt), layout, 'array'))
     scls = _shape_class(shape, k)
     pcls = _pair_class(case['nms'])
     ctx.nt('unsorted' in pcls or 'repeated|m|' in pcls or len(shape) != 1 or k in shape)
-    ctx.label(case['fn'], scls, 'norm=%s' % case['norm'], dtype, *pcls)
+    ctx.label(case['fn'], scls, 'norm=%s' % case['norm'], *pcls)
+    ctx.label('maxn>=30' if max(n for n, _ in nms) >= 30 else 'maxn<30')
+    _two_index_labels(ctx, dtype, layout, pairs_as, history, shape)
     kw = {'norm': case['norm']} if (case['norm_kw'] or not case['norm']) else {}
     rref, tref = _polar_ref()
+    other = [(n + 2, m) for n, m in nms]
+    spot = int(case['seed']) % k
     if case['fn'] == 'zernike_nm_seq':
-        out = np.asarray(_guard(ctx, scls, P.zernike_nm_seq, list(nms), r, t, **kw))
-        U.check_shape(out, (k,) + shape, 'zernike_nm_seq:' + scls, 'zernike_nm_seq of %d pairs on r.shape=%s' % (k, shape))
+        kept, (r, t), out3, (r2, t2), out2 = _two_index_protocol(
+            ctx, 'zernike_nm_seq', scls, lambda pairs, c: _guard(ctx, scls, P.zernike_nm_seq, pairs, c[0], c[1], **kw),
+            nms, pairs_as, history, make_coords, dtype, other)
+        U.check_shape(kept, (k,) + shape, 'zernike_nm_seq:' + scls, 'zernike_nm_seq of %d pairs on r.shape=%s' % (k, shape))
         for i, (n, m) in enumerate(nms):
             want = np.asarray(_guard(ctx, scls, P.zernike_nm, n, m, r, t, **kw))
-            _cmp(out[i], want, _guard(ctx, 'ref', P.zernike_nm, n, m, rref, tref, **kw), dtype,
-                 'zernike_nm_seq:%s:norm=%s' % (scls, case['norm']),
-                 'zernike_nm_seq(%r)[%d] vs zernike_nm(%d,%d) r.shape=%s' % (nms, i, n, m, shape))
+            ref = _guard(ctx, 'ref', P.zernike_nm, n, m, rref, tref, **kw)
+            _cmp(kept[i], want, ref, dtype, 'zernike_nm_seq:%s:norm=%s' % (scls, case['norm']),
+                 'zernike_nm_seq(%r)[%d] vs zernike_nm(%d,%d) r.shape=%s %s %s' % (nms, i, n, m, shape, dtype, layout))
+            _cmp(out3[i], want, ref, dtype, 'zernike_nm_seq:aliased-state:norm=%s' % case['norm'],
+                 'zernike_nm_seq(%r)[%d] vs zernike_nm(%d,%d), called again after the caller overwrote the first result' % (nms, i, n, m))
+            if i == spot:
+                _cmp(out2[i], np.asarray(_guard(ctx, scls, P.zernike_nm, n, m, r2, t2, **kw)), ref, dtype, 'zernike_nm_seq:second-call',
+                     'zernike_nm_seq(%r)[%d] vs zernike_nm(%d,%d) on the second coordinate set' % (nms, i, n, m))
     else:
-        out = np.asarray(_guard(ctx, scls, P.zernike_nm_der_seq, list(nms), r, t, **kw))
-        U.check_shape(out, (k, 2) + shape, 'zernike_nm_der_seq:' + scls, 'zernike_nm_der_seq of %d pairs on r.shape=%s' % (k, shape))
+        kept, (r, t), out3, (r2, t2), out2 = _two_index_protocol(
+            ctx, 'zernike_nm_der_seq', scls, lambda pairs, c: _guard(ctx, scls, P.zernike_nm_der_seq, pairs, c[0], c[1], **kw),
+            nms, pairs_as, history, make_coords, dtype, other)
+        U.check_shape(kept, (k, 2) + shape, 'zernike_nm_der_seq:' + scls, 'zernike_nm_der_seq of %d pairs on r.shape=%s' % (k, shape))
         for i, (n, m) in enumerate(nms):
             dr, dt = _guard(ctx, scls, P.zernike_nm_der, n, m, r, t, **kw)
             refs = _guard(ctx, 'ref', P.zernike_nm_der, n, m, rref, tref, **kw)
             for j, (want, nm) in enumerate(((dr, 'd/dr'), (dt, 'd/dt'))):
-                _cmp(out[i, j], want, refs[j], dtype, 'zernike_nm_der_seq:%s:%s:norm=%s' % (nm, scls, case['norm']),
-                     'zernike_nm_der_seq(%r)[%d,%d] vs zernike_nm_der(%d,%d) %s r.shape=%s' % (nms, i, j, n, m, nm, shape))
+                _cmp(kept[i, j], want, refs[j], dtype, 'zernike_nm_der_seq:%s:%s:norm=%s' % (nm, scls, case['norm']),
+                     'zernike_nm_der_seq(%r)[%d,%d] vs zernike_nm_der(%d,%d) %s r.shape=%s %s %s' % (nms, i, j, n, m, nm, shape, dtype, layout))
+                _cmp(out3[i, j], want, refs[j], dtype, 'zernike_nm_der_seq:aliased-state:%s' % nm,
+                     'zernike_nm_der_seq(%r)[%d,%d] vs zernike_nm_der(%d,%d), called again after the caller overwrote the first result' % (nms, i, j, n, m))
+            if i == spot:
+                w2 = _guard(ctx, scls, P.zernike_nm_der, n, m, r2, t2, **kw)
+                for j in (0, 1):
+                    _cmp(out2[i, j], w2[j], refs[j], dtype, 'zernike_nm_der_seq:second-call',
+                         'zernike_nm_der_seq(%r)[%d,%d] vs zernike_nm_der(%d,%d) on the second coordinate set' % (nms, i, j, n, m))
 
 
 def strat_q2d(tier):
-    N, M = {'quick': (14, 10), 'thorough': (30, 16)}[tier]
-    return st.fixed_dictionaries({'nms': q2d_pairs(N, M), 'shape': shape_spec(DMAX[tier]),
-                                  'dtype': st.sampled_from(['float64'] * 7 + ['float32']), 'seed': U.seeds})
+    N, M = {'quick': (30, 16), 'thorough': (60, 30)}[tier]
+    return st.sampled_from(FLOATS).flatmap(lambda dtype: st.fixed_dictionaries({
+        'nms': q2d_pairs(14, 10) if dtype in SINGLE else q2d_pairs(N, M), 'shape': shape_spec(DMAX[tier]), 'dtype': st.just(dtype),
+        'layout': U.layouts, 'pairs_as': st.sampled_from(PAIRS_AS), 'history': st.sampled_from(HISTORY2), 'seed': U.seeds}))
 
 
 def check_q2d(case, ctx):
-    """Q2d_seq against Q2d pair by pair (m = 0 -> Qbfs, m > 0 cosine, m < 0 sine), any order, repeated |m|."""
+    """Q2d_seq against Q2d pair by pair (m = 0 -> Qbfs, m > 0 cosine, m < 0 sine), any order, repeated |m|; arguments unchanged;
+    results independent of earlier calls and of what the caller did to earlier results."""
     from prysm import polynomials as P
     nms = [(int(n), int(m)) for n, m in case['nms']]
     k = len(nms)
     shape = resolve_shape(case['shape'], k)
     dtype = case['dtype']
-    r = coords(case['seed'], shape, 0.0, 1.0, dtype, salt=1)
-    t = coords(case['seed'], shape, 0.0, 2 * np.pi, dtype, salt=2)
+    layout, pairs_as, history = case.get('layout', 'C'), case.get('pairs_as', 'tuples'), case.get('history', 'none')
+
+    def make_coords(dt, salt):
+        return (present(coords(case['seed'], shape, 0.0, 1.0, dt, salt=1 + salt), layout, 'array'),
+                present(coords(case['seed'], shape, 0.0, 2 * np.pi, dt, salt=2 + salt), layout, 'array'))
     scls = _shape_class(shape, k)
     pcls = _pair_class(case['nms'])
     ms = [m for _, m in nms]
     content = ('m0' if 0 in ms else '') + ('cos' if any(m > 0 for m in ms) else '') + ('sin' if any(m < 0 for m in ms) else '')
     ctx.nt('unsorted' in pcls or 'repeated|m|' in pcls or len(shape) != 1 or k in shape)
-    ctx.label(scls, dtype, 'content:' + content, *pcls)
-    out = np.asarray(_guard(ctx, scls, P.Q2d_seq, list(nms), r, t))
-    U.check_shape(out, (k,) + shape, 'Q2d_seq:' + scls, 'Q2d_seq of %d pairs on r.shape=%s' % (k, shape))
+    ctx.label(scls, 'content:' + content, *pcls)
+    ctx.label('maxn>=15' if max(n for n, _ in nms) >= 15 else 'maxn<15')
+    _two_index_labels(ctx, dtype, layout, pairs_as, history, shape)
+    other = [(n + 1, -m) for n, m in nms]
+    kept, (r, t), out3, (r2, t2), out2 = _two_index_protocol(
+        ctx, 'Q2d_seq', scls, lambda pairs, c: _guard(ctx, scls, P.Q2d_seq, pairs, c[0], c[1]), nms, pairs_as, history, make_coords, dtype, other)
+    U.check_shape(kept, (k,) + shape, 'Q2d_seq:' + scls, 'Q2d_seq of %d pairs on r.shape=%s' % (k, shape))
     rref, tref = _polar_ref()
+    spot = int(case['seed']) % k
     for i, (n, m) in enumerate(nms):
         want = np.asarray(_guard(ctx, scls, P.Q2d, n, m, r, t))
         mcls = 'm=0' if m == 0 else ('m>0' if m > 0 else 'm<0')
-        _cmp(out[i], want, _guard(ctx, 'ref', P.Q2d, n, m, rref, tref), dtype, 'Q2d_seq:%s:%s' % (scls, mcls),
-             'Q2d_seq(%r)[%d] vs Q2d(%d,%d) r.shape=%s' % (nms, i, n, m, shape))
+        ref = _guard(ctx, 'ref', P.Q2d, n, m, rref, tref)
+        _cmp(kept[i], want, ref, dtype, 'Q2d_seq:%s:%s' % (scls, mcls),
+             'Q2d_seq(%r)[%d] vs Q2d(%d,%d) r.shape=%s %s %s' % (nms, i, n, m, shape, dtype, layout))
+        _cmp(out3[i], want, ref, dtype, 'Q2d_seq:aliased-state:%s' % mcls,
+             'Q2d_seq(%r)[%d] vs Q2d(%d,%d), called again after the caller overwrote the first result' % (nms, i, n, m))
+        if i == spot:
+            _cmp(out2[i], np.asarray(_guard(ctx, scls, P.Q2d, n, m, r2, t2)), ref, dtype, 'Q2d_seq:second-call:%s' % mcls,
+                 'Q2d_seq(%r)[%d] vs Q2d(%d,%d) on the second coordinate set' % (nms, i, n, m))
+
+
+XY_DTYPES = ['float64'] * 5 + ['float32', 'complex128', 'int64', 'int64']
+XY_INT_MAX = 12       # 3**12 * 3**12 < 2**63: integer coordinates in [-3, 3] cannot overflow int64
 
 
 def strat_xy(tier):
-    N, D = {'quick': 12, 'thorough': 25}[tier], DMAX[tier]
+    N, D = {'quick': 20, 'thorough': 40}[tier], DMAX[tier]
     d = st.integers(1, D)
     grid = st.tuples(d, d).map(lambda t: ['grid', list(t)])
     grid_forced = st.sampled_from([['grid-lead', [1, 3]], ['grid-trail', [3, 1]], ['grid-both', [1, 1]]])
     free = shape_spec(D).map(lambda s: ['free', s])
-    return st.fixed_dictionaries({'mns': xy_pairs(N), 'grid': st.sampled_from(['grid', 'grid', 'forced', 'free', 'free']).flatmap(lambda k: {'grid': grid, 'forced': grid_forced, 'free': free}[k]),
-                                  'pass_flag': st.booleans(), 'seed': U.seeds})
+    return st.sampled_from(XY_DTYPES).flatmap(lambda dtype: st.fixed_dictionaries({
+        'mns': xy_pairs(XY_INT_MAX if (dtype.startswith('int') or dtype in SINGLE) else N),
+        'grid': st.sampled_from(['grid', 'grid', 'forced', 'free', 'free']).flatmap(lambda k: {'grid': grid, 'forced': grid_forced, 'free': free}[k]),
+        'pass_flag': st.booleans(), 'dtype': st.just(dtype), 'layout': U.layouts, 'pairs_as': st.sampled_from(PAIRS_AS),
+        'history': st.sampled_from(HISTORY2), 'seed': U.seeds}))
 
 
 def check_xy(case, ctx):
-    """xy_seq against xy (and x**m * y**n) term by term; cartesian_grid=True on 2-D meshgrids, False on any shape."""
+    """xy_seq against xy (and x**m * y**n) term by term; cartesian_grid=True on 2-D meshgrids, False on any shape; arguments
+    unchanged; results independent of earlier calls and of what the caller did to earlier results."""
     from prysm import polynomials as P
     mns = [(int(m), int(n)) for m, n in case['mns']]
     k = len(mns)
     kind, spec = case['grid']
+    dtype = case.get('dtype', 'float64')
+    layout, pairs_as, history = case.get('layout', 'C'), case.get('pairs_as', 'tuples'), case.get('history', 'none')
+    lo, hi = (-3.0, 3.0) if dtype.startswith('int') else (-1.5, 1.5)
     if kind == 'free':
         shape = resolve_shape(spec, k)
-        x = coords(case['seed'], shape, -1.5, 1.5, 'float64', salt=1)
-        y = coords(case['seed'], shape, -1.5, 1.5, 'float64', salt=2)
         cart = False
-        xg, yg = x, y
     else:
         ny, nx = int(spec[0]), int(spec[1])
         if kind in ('grid-lead', 'grid-both'):
@@ -353,45 +635,83 @@ def check_xy(case, ctx):
         if kind in ('grid-trail', 'grid-both'):
             nx = k
         shape = (ny, nx)
-        xv = coords(case['seed'], (nx,), -1.5, 1.5, 'float64', salt=1)
-        yv = coords(case['seed'], (ny,), -1.5, 1.5, 'float64', salt=2)
-        x, y = np.meshgrid(xv, yv)
         cart = True
-        xg, yg = x, y
+
+    def make_coords(dt, salt):
+        if not cart:
+            x, y = coords(case['seed'], shape, lo, hi, dt, salt=1 + salt), coords(case['seed'], shape, lo, hi, dt, salt=2 + salt)
+        else:
+            x, y = np.meshgrid(coords(case['seed'], (shape[1],), lo, hi, dt, salt=1 + salt), coords(case['seed'], (shape[0],), lo, hi, dt, salt=2 + salt))
+        return present(x, layout, 'array'), present(y, layout, 'array')
     scls = _shape_class(shape, k)
     zero = 'zero-exp' if any(m == 0 or n == 0 for m, n in mns) else 'no-zero-exp'
     ctx.nt(len(shape) != 1 or k in shape or mns != sorted(mns))
     ctx.label(scls, 'cartesian=%s' % cart, zero, 'has(0,0)' if (0, 0) in mns else 'no(0,0)')
+    _two_index_labels(ctx, dtype, layout, pairs_as, history, shape)
     kw = {'cartesian_grid': cart} if (case['pass_flag'] or not cart) else {}
-    out = _guard(ctx, scls, P.xy_seq, list(mns), x, y, **kw)
+
+    def run(pairs, c):
+        return _guard(ctx, scls, P.xy_seq, pairs, c[0], c[1], **kw)
+    x, y = make_coords(dtype, 0)
+    if history == 'single-first' and _single(dtype):
+        run(_as_pairs(mns, pairs_as), make_coords(_single(dtype), 0))
+    elif history == 'other-pairs':
+        run(_as_pairs([(m + 1, n + 2) for m, n in mns], pairs_as), (x, y))
+    elif history == 'other-coords':
+        run(_as_pairs(mns, pairs_as), make_coords(dtype, 40))
+    xb, yb = np.array(x, copy=True), np.array(y, copy=True)
+    arg = _as_pairs(mns, pairs_as)
+    out = run(arg, (x, y))
+    _unchanged(ctx, x, xb, 'xy_seq:argument-modified:coords', 'the x coordinate array')
+    _unchanged(ctx, y, yb, 'xy_seq:argument-modified:coords', 'the y coordinate array')
+    ctx.require(_pairs_equal(arg, mns), 'xy_seq:argument-modified:pairs', 'the list of exponents %r became %r' % (mns, arg))
     ctx.require(len(out) == k, 'xy_seq:count', 'xy_seq returned %d modes for %d terms' % (len(out), k))
+    kept = [np.array(o, copy=True) for o in out]
+    x2, y2 = make_coords(dtype, 70)
+    out2 = run(arg, (x2, y2))
+    for i in range(k):
+        U.check_equal(np.asarray(out[i]), kept[i], 'xy_seq:result-overwritten', 'mode %d of xy_seq(%r) after a second call at other coordinates' % (i, mns))
+    for o in out:
+        if isinstance(o, np.ndarray) and o.flags.writeable:
+            o[...] = 7
+    out3 = run(arg, (x, y))
+    ctx.require(len(out3) == k and len(out2) == k, 'xy_seq:count', 'xy_seq returned %d / %d modes for %d terms on repeat calls' % (len(out2), len(out3), k))
+    tol = _tol(dtype)
+    spot = int(case['seed']) % k
     for i, (m, n) in enumerate(mns):
-        got = np.asarray(out[i])
+        got = kept[i]
         ecls = 'm=0' if m == 0 else 'm>0'
         ecls += ',n=0' if n == 0 else ',n>0'
         want = np.asarray(_guard(ctx, scls, P.xy, m, n, x, y, **kw))
         if got.shape != shape:
             raise Violation('xy_seq:%s:%s:shape' % (scls, ecls), 'xy_seq(%r)[%d] has shape %s, coordinates %s' % (mns, i, got.shape, shape))
-        U.check_close(got, want, 1e-11, 'xy_seq:%s:cart=%s' % (ecls, cart), 'xy_seq(%r)[%d] vs xy(%d,%d) on %s' % (mns, i, m, n, shape))
-        U.check_close(got, xg ** m * yg ** n, 1e-11, 'xy_seq:%s:cart=%s:closed-form' % (ecls, cart),
-                      'xy_seq(%r)[%d] vs x**%d*y**%d on %s' % (mns, i, m, n, shape))
+        U.check_close(got, want, tol, 'xy_seq:%s:cart=%s' % (ecls, cart), 'xy_seq(%r)[%d] vs xy(%d,%d) on %s %s %s' % (mns, i, m, n, shape, dtype, layout))
+        U.check_close(got, x ** m * y ** n, tol, 'xy_seq:%s:cart=%s:closed-form' % (ecls, cart),
+                      'xy_seq(%r)[%d] vs x**%d*y**%d on %s %s' % (mns, i, m, n, shape, dtype))
+        U.check_close(np.asarray(out3[i]), want, tol, 'xy_seq:aliased-state:%s' % ecls,
+                      'xy_seq(%r)[%d] vs xy(%d,%d), called again after the caller overwrote the first result' % (mns, i, m, n))
+        if i == spot:
+            U.check_close(np.asarray(out2[i]), np.asarray(_guard(ctx, scls, P.xy, m, n, x2, y2, **kw)), tol, 'xy_seq:second-call:%s' % ecls,
+                          'xy_seq(%r)[%d] vs xy(%d,%d) on the second coordinate set' % (mns, i, m, n))
+    _unchanged(ctx, x, xb, 'xy:argument-modified:coords', 'the x coordinate array (single-term function)')
+    _unchanged(ctx, y, yb, 'xy:argument-modified:coords', 'the y coordinate array (single-term function)')
 
 
 def _hc(name, group, ex):
-    return HypClause(name, strat_one_index(group), check_one_index, examples=ex, shards={'quick': 1, 'thorough': 4},
+    return HypClause(name, strat_one_index(group), check_one_index, examples=ex, shards={'quick': 2, 'thorough': 4},
                      doc='%s: %s' % (', '.join(GROUPS[group]), check_one_index.__doc__))
 
 
 CLAUSES = [
-    _hc('jacobi_legendre', 'jacobi_legendre', {'quick': 700, 'thorough': 2500}),
-    _hc('chebyshev', 'chebyshev', {'quick': 700, 'thorough': 2500}),
-    _hc('chebyshev_der', 'chebyshev_der', {'quick': 700, 'thorough': 2500}),
-    _hc('hermite', 'hermite', {'quick': 700, 'thorough': 2500}),
-    _hc('laguerre', 'laguerre', {'quick': 500, 'thorough': 2000}),
-    _hc('laguerre_der', 'laguerre_der', {'quick': 500, 'thorough': 2000}),
-    _hc('dickson', 'dickson', {'quick': 500, 'thorough': 2000}),
-    _hc('qbfs_qcon', 'qbfs_qcon', {'quick': 500, 'thorough': 2000}),
+    _hc('jacobi_legendre', 'jacobi_legendre', {'quick': 350, 'thorough': 1800}),
+    _hc('chebyshev', 'chebyshev', {'quick': 350, 'thorough': 1800}),
+    _hc('chebyshev_der', 'chebyshev_der', {'quick': 350, 'thorough': 1800}),
+    _hc('hermite', 'hermite', {'quick': 350, 'thorough': 1800}),
+    _hc('laguerre', 'laguerre', {'quick': 250, 'thorough': 1500}),
+    _hc('laguerre_der', 'laguerre_der', {'quick': 250, 'thorough': 1500}),
+    _hc('dickson', 'dickson', {'quick': 250, 'thorough': 1500}),
+    _hc('qbfs_qcon', 'qbfs_qcon', {'quick': 250, 'thorough': 1500}),
     HypClause('zernike', strat_zernike, check_zernike, examples={'quick': 700, 'thorough': 2500}, shards={'quick': 2, 'thorough': 4}),
     HypClause('q2d', strat_q2d, check_q2d, examples={'quick': 600, 'thorough': 2500}, shards={'quick': 2, 'thorough': 4}),
-    HypClause('xy', strat_xy, check_xy, examples={'quick': 700, 'thorough': 2500}, shards={'quick': 1, 'thorough': 4}),
+    HypClause('xy', strat_xy, check_xy, examples={'quick': 350, 'thorough': 2500}, shards={'quick': 2, 'thorough': 4}),
 ]
